@@ -72,6 +72,20 @@ def configs(tier):
             if opt == "cooling" and v:
                 cfg["extra-species"] = "H, e-, H+"
             add(cfg, f"single:{opt}")
+    # list options closed by a separator (empty items are dropped by every list option), alone and together
+    trailing = {"elements": "e,H,He,C,O,", "pseudo-elements": "CR,", "allowed-species": "C,CH,H,C2,", "extra-species": "He,", "network-files": "net.kida,", "file-formats": "kida,", "cooling": "CIC_HI,"}
+    for opt, v in trailing.items():
+        cfg = dict(BASE)
+        cfg[opt] = v
+        if opt == "cooling":
+            cfg["extra-species"] = "H, e-, H+"
+        add(cfg, f"trailing-separator:{opt}")
+    cfg = dict(BASE)
+    cfg.update({"network-files": "net.kida,net2.umist,", "file-formats": "kida,umist,"})
+    add(cfg, "trailing-separator:files+formats")
+    cfg = dict(BASE)
+    cfg.update({"network-files": "net.kida,,net2.umist", "file-formats": "kida,,umist", "elements": "e,H,He,C,O,"})
+    add(cfg, "empty-item:files+formats")
     # a family in which the replacement table actually changes species (upper-case UCLCHEM spelling)
     for rep in ("HE:He,E:e", "HE: He, E: e", "HE:He"):
         for allowed in ("", "HE,HE+,E-,H,H2", "He,He+,e-,H,H2"):
